@@ -46,14 +46,14 @@ CHECKS = {
               "loop + update_clocks) emits a permutation of all events (replay_perm), each stream in order "
               "(replay_stream_order), sclock = clock + host offset (replay_clock), non-decreasing for sorted streams and "
               "always when ovniemu does not reject (replay_sorted, replay_sorted_or_rejected), dclock = sclock - first sclock "
-              "(dclock_def); it never fails on sorted streams with non-negative first corrected clock passing the clock gate, "
+              "(dclock_def); it never fails on sorted streams passing the clock gate (any sign of the corrected clocks, after the repair of stream_step), "
               "never in ovnidump mode, and rejects only through its guards (replay_total, replay_total_unsorted, "
               "replay_rejects_only_by_guards); trace_load's sort makes the result independent of the enumeration order for "
               "every offset table (enumeration_independent, dump_/emu_enumeration_independent). Tie: the real heap.h in an "
               "ASan/UBSan harness vs the Lean heap (random + bounded-exhaustive scripts with many equal keys, every line "
               "diffed), ovnidump's exact line order and ovniemu's thread.prv (row,time) order vs the Lean player on generated "
               "multi-loom traces with offset tables, empty streams and shuffled directory creation, plus independent merge/"
-              "heap oracles. Known finding: a negative first corrected clock is refused."),
+              "heap oracles and an independent acceptance oracle (sorted input + usable table inside the gate must be replayed). Defect found and repaired: a negative first corrected clock was refused."),
         note=TB + "; heap pointers modelled as a value tree; streams as decoded event lists; int64 clocks as unbounded Int "
              "(no overflow); DL_SORT stable; ovniemu's order observed through the type-4 PRV records",
         technique="Lean 4 data-structure invariants + refinement of the player to an abstract merge + differential runs (C harness, ovnidump, ovniemu)",
